@@ -6,6 +6,7 @@ V = os.path.dirname(os.path.dirname(os.path.abspath(__file__)))
 ids = [json.loads(l)['id'] for l in open(os.path.join(V, 'properties.jsonl'))]
 rows = []
 tot = conc = 0
+elsewhere, nowhere = [], []
 for d in sorted(glob.glob(os.path.join(V, 'seeded', '*')), key=lambda p: (os.path.basename(p).split('-')[0], 'r2' in p, p)):
     name = os.path.basename(d)
     meta = json.load(open(os.path.join(d, 'meta.json')))
@@ -33,6 +34,10 @@ for d in sorted(glob.glob(os.path.join(V, 'seeded', '*')), key=lambda p: (os.pat
     tot += 1
     if t.get('rc') == 1:
         conc += 1
+    elif any(r.get('rc') == 1 for r in res.values()):
+        elsewhere.append(name)
+    else:
+        nowhere.append(name)
     files = ', '.join(os.path.basename(f) for f in meta.get('files', []))[:40]
     trig = re.sub(r'\s+', ' ', meta.get('trigger', ''))[:110]
     note = ' (neutralised by a later fix)' if meta.get('note_after_fix') else ''
@@ -40,9 +45,11 @@ for d in sorted(glob.glob(os.path.join(V, 'seeded', '*')), key=lambda p: (os.pat
 head = '| change | files | what it needs to manifest | ' + ' | '.join(i[1:] for i in ids) + ' |\n|---|---|---|' + '---|' * len(ids)
 legend = ("Columns 01…17 = `./check Cxx quick` with the change applied to /repo. **X** = exit 1 with a concrete failing input in the replay; "
           "x = exit 1 `no-failing-input-found` (a proof obligation or the tie broke, nothing concrete on that property's observation); "
-          "· = exit 0; ! = infrastructure error. The diagonal (the property the change was written against) is what counts as caught: "
-          "%d of %d; the one not caught no longer breaks its property on the current tree (see below). Off-diagonal marks are the shared `write`/`conv` "
-          "ties doing their job: most changes break several properties, or at least the correspondence several properties rest on." % (conc, tot))
+          "· = exit 0; ! = infrastructure error. %d of %d changes are caught by the check of the property they were written against; "
+          "%s by the check of the property that owns the route they use (see the text below); %s by none - it no longer breaks its property on the "
+          "current tree (see below). Off-diagonal marks are the shared `write`/`conv` ties doing their job: most changes break several properties, or at "
+          "least the correspondence several properties rest on. Rows were computed with the machinery as it stood after each round's strengthening "
+          "(first two rounds: before the third round's additions)." % (conc, tot, ', '.join(elsewhere) or 'none', ', '.join(nowhere) or 'none'))
 table = head + '\n' + '\n'.join(rows) + '\n\n' + legend + '\n'
 p = os.path.join(V, 'DESIGN.md')
 s = open(p).read()
